@@ -43,14 +43,16 @@ Lemma udp_forward_sound_lemma e ue st ca cip pkt st' evs s dst port payload :
 Proof.
   unfold udp_client_step. destruct (alookup N.eqb ca (u_nat st)) as [a|] eqn:L.
   - destruct (unpack e (as_key a) pkt) as [pt|] eqn:U; [|intros H; inversion H; subst; intros [E|[]]; discriminate].
-    destruct (validate_packet ue pt) as [[[pl d] po]|code] eqn:V; intros H; inversion H; subst.
+    destruct (validate_packet ue pt) as [[[pl d] po]|code] eqn:V; [destruct (ue_sendable ue d po)|]; intros H; inversion H; subst.
     + intros [E|[E|[]]]; inversion E; subst. exists (as_key a), pt. repeat split; assumption.
+    + intros [E|[]]. discriminate.
     + intros [E|[]]. discriminate.
   - destruct (find_entry_udp e pkt (snapshot cip (u_cl st))) as [[el pt]|] eqn:F; [|intros H; inversion H; subst; intros []].
     apply find_entry_udp_sound in F as [Hin U]. apply snapshot_gen in Hin as [_ Hin].
-    destruct (validate_packet ue pt) as [[[pl d] po]|code] eqn:V; intros H; inversion H; subst; [|intros []].
-    intros [E|[E|[E|[]]]]; inversion E; subst. exists (e_key (snd el)), pt. repeat split; try assumption.
-    exists (snd el). split; [exact Hin | reflexivity].
+    destruct (validate_packet ue pt) as [[[pl d] po]|code] eqn:V; [destruct (ue_sendable ue d po)|]; intros H; inversion H; subst; [| |intros []].
+    + intros [E|[E|[E|[]]]]; inversion E; subst. exists (e_key (snd el)), pt. repeat split; try assumption.
+      exists (snd el). split; [exact Hin | reflexivity].
+    + intros [E|[E|[]]]; discriminate.
 Qed.
 
 (* COMPLETE: a datagram that opens under a configured key (new client) to an allowed address
@@ -60,17 +62,18 @@ Lemma udp_forward_complete_lemma e ue st ca cip pkt ent pt payload dst port :
   In ent (items (u_cl st)) -> unpack e (e_key ent) pkt = Some pt ->
   (forall k' pt', unpack e k' pkt = Some pt' -> pt' = pt) ->          (* a ciphertext has one plaintext *)
   validate_packet ue pt = inl (payload, dst, port) ->
+  ue_sendable ue dst port = true ->                                   (* the kernel accepts the send *)
   exists st' id, udp_client_step e ue st ca cip pkt =
     (st', [UNew ca (u_next st) id; USend (u_next st) dst port payload; UReport (u_next st) us_ok (zlen pkt) (zlen payload)])
     /\ alookup N.eqb ca (u_nat st') <> None.
 Proof.
-  intros L Hin U Huniq V. unfold udp_client_step. rewrite L.
+  intros L Hin U Huniq V Hsend. unfold udp_client_step. rewrite L.
   assert (Hsnap : exists el, In el (snapshot cip (u_cl st)) /\ snd el = ent).
   { pose proof (snapshot_permutation_lemma cip (u_cl st)) as P. apply Permutation.Permutation_sym in P.
     pose proof (Permutation.Permutation_in _ P Hin) as H. apply in_map_iff in H as [el [E H]]. exists el. tauto. }
   destruct Hsnap as [el0 [Hin0 E0]]. subst ent.
   destruct (find_entry_udp_complete e pkt _ el0 pt Hin0 U) as (el & pt' & F). rewrite F.
-  apply find_entry_udp_sound in F as [_ U']. rewrite (Huniq _ _ U'), V.
+  apply find_entry_udp_sound in F as [_ U']. rewrite (Huniq _ _ U'), V, Hsend.
   eexists; eexists. split; [reflexivity|]. cbn [u_nat].
   rewrite (alookup_app N.eqb), L. cbn. rewrite N.eqb_refl. discriminate.
 Qed.
@@ -88,8 +91,8 @@ Proof.
 Qed.
 
 (* every datagram is validated, not only the first of an association *)
-Lemma udp_every_datagram_validated_lemma e st ca cip pkt st' evs s dst port payload validate resolve :
-  udp_client_step e {| ue_validate := true; ue_resolve := resolve |} st ca cip pkt = (st', evs) ->
+Lemma udp_every_datagram_validated_lemma e st ca cip pkt st' evs s dst port payload validate resolve sendable :
+  udp_client_step e {| ue_validate := true; ue_resolve := resolve; ue_sendable := sendable |} st ca cip pkt = (st', evs) ->
   In (USend s dst port payload) evs -> validate = true -> require_public dst = Allowed.
 Proof.
   intros H Hin _. destruct (udp_forward_sound_lemma _ _ _ _ _ _ _ _ _ _ _ _ H Hin) as (k & pt & _ & V & _).
@@ -179,8 +182,9 @@ Lemma nat_stable_source_lemma e ue st ca cip pkt a :
 Proof.
   intros L. unfold udp_client_step. rewrite L.
   destruct (unpack e (as_key a) pkt) as [pt|]; [|split; [exact L | intros s d p pl [E|[]]; discriminate]].
-  destruct (validate_packet ue pt) as [[[pl0 d0] p0]|code]; (split; [exact L|]); intros s d p pl.
+  destruct (validate_packet ue pt) as [[[pl0 d0] p0]|code]; [destruct (ue_sendable ue d0 p0)|]; (split; [exact L|]); intros s d p pl.
   - intros [E|[E|[]]]; inversion E; reflexivity.
+  - intros [E|[]]; discriminate.
   - intros [E|[]]; discriminate.
 Qed.
 Lemma nat_other_client_untouched_lemma e ue st ca cip pkt cb :
@@ -203,13 +207,15 @@ Lemma nat_create_guard_lemma e ue st ca cip pkt st' evs s id :
      validate_packet ue pt = inl (payload, dst, port) /\ id = e_id ent /\ s = u_next st.
 Proof.
   unfold udp_client_step. destruct (alookup N.eqb ca (u_nat st)) as [a|] eqn:L.
-  - destruct (unpack e (as_key a) pkt) as [pt|]; [destruct (validate_packet ue pt) as [[[? ?] ?]|?]|];
+  - destruct (unpack e (as_key a) pkt) as [pt|]; [destruct (validate_packet ue pt) as [[[? d0] p0]|?]; [destruct (ue_sendable ue d0 p0)|]|];
       intros H; inversion H; subst; intros Hin; cbn in Hin; repeat (destruct Hin as [Hin|Hin]; try discriminate); destruct Hin.
   - destruct (find_entry_udp e pkt (snapshot cip (u_cl st))) as [[el pt]|] eqn:F; [|intros H; inversion H; subst; intros []].
     apply find_entry_udp_sound in F as [Hin U]. apply snapshot_gen in Hin as [_ Hin].
-    destruct (validate_packet ue pt) as [[[pl d] po]|code] eqn:V; intros H; inversion H; subst; [|intros []].
-    intros [E|[E|[E|[]]]]; inversion E; subst. split; [reflexivity|].
-    exists (snd el), pt, pl, d, po. repeat split; assumption.
+    destruct (validate_packet ue pt) as [[[pl d] po]|code] eqn:V; [destruct (ue_sendable ue d po)|]; intros H; inversion H; subst; [| |intros []].
+    + intros [E|[E|[E|[]]]]; inversion E; subst. split; [reflexivity|].
+      exists (snd el), pt, pl, d, po. repeat split; assumption.
+    + intros [E|[E|[]]]; inversion E; subst. split; [reflexivity|].
+      exists (snd el), pt, pl, d, po. repeat split; assumption.
 Qed.
 
 (* --- reports (C16) ------------------------------------------------------------------------- *)
@@ -236,21 +242,24 @@ Lemma udp_step_cases e ue st ca cip pkt :
       (exists d p pl, evs = [USend (as_sock a) d p pl; UReport (as_sock a) us_ok (zlen pkt) (zlen pl)]))) \/
   (* new client, refused: nothing *)
   (alookup N.eqb ca (u_nat st) = None /\ alookup N.eqb ca (u_nat st') = None /\ evs = []) \/
-  (* new client, accepted *)
+  (* new client, accepted: the association exists; the datagram was sent, or the send failed *)
   (alookup N.eqb ca (u_nat st) = None /\
      exists a d p pl, alookup N.eqb ca (u_nat st') = Some a /\ as_sock a = u_next st /\
-       evs = [UNew ca (as_sock a) (as_id a); USend (as_sock a) d p pl; UReport (as_sock a) us_ok (zlen pkt) (zlen pl)]).
+       (evs = [UNew ca (as_sock a) (as_id a); USend (as_sock a) d p pl; UReport (as_sock a) us_ok (zlen pkt) (zlen pl)] \/
+        evs = [UNew ca (as_sock a) (as_id a); UReport (as_sock a) us_write (zlen pkt) 0])).
 Proof.
   unfold udp_client_step. destruct (alookup N.eqb ca (u_nat st)) as [a|] eqn:L.
   - destruct (unpack e (as_key a) pkt) as [pt|].
-    + destruct (validate_packet ue pt) as [[[pl d] po]|code] eqn:V; left; exists a; (split; [reflexivity|]); (split; [exact L|]).
+    + destruct (validate_packet ue pt) as [[[pl d] po]|code] eqn:V; [destruct (ue_sendable ue d po)|]; left; exists a; (split; [reflexivity|]); (split; [exact L|]).
       * right. exists d, po, pl. reflexivity.
+      * left. exists us_write. split; [discriminate | reflexivity].
       * left. exists code. split; [eapply validate_packet_err_not_ok; exact V | reflexivity].
     + left. exists a. split; [reflexivity|]. split; [exact L|]. left. exists us_cipher. split; [discriminate|reflexivity].
   - destruct (find_entry_udp e pkt (snapshot cip (u_cl st))) as [[el pt]|].
     + destruct (validate_packet ue pt) as [[[pl d] po]|code]; right.
       * right. split; [reflexivity|]. exists {| as_sock := u_next st; as_key := e_key (snd el); as_id := e_id (snd el) |}, d, po, pl.
-        cbn [u_nat as_sock as_id]. rewrite (alookup_app N.eqb), L. cbn. rewrite N.eqb_refl. repeat split; reflexivity.
+        cbn [u_nat as_sock as_id]. rewrite (alookup_app N.eqb), L. cbn. rewrite N.eqb_refl.
+        split; [reflexivity|]. split; [reflexivity|]. destruct (ue_sendable ue d po); [left|right]; reflexivity.
       * left. cbn [u_nat]. split; [reflexivity|]. split; [exact L | reflexivity].
     + right. left. split; [reflexivity|]. split; [exact L | reflexivity].
 Qed.
@@ -271,7 +280,7 @@ Lemma udp_report_shape_lemma e ue st ca cip pkt :
 Proof.
   pose proof (udp_step_cases e ue st ca cip pkt) as C.
   destruct (udp_client_step e ue st ca cip pkt) as [st' evs].
-  destruct C as [(a & L & L' & [(code & Hc & ->)|(d & p & pl & ->)])|[(L & L' & ->)|(L & a & d & p & pl & L' & Hs & ->)]];
+  destruct C as [(a & L & L' & [(code & Hc & ->)|(d & p & pl & ->)])|[(L & L' & ->)|(L & a & d & p & pl & L' & Hs & [->| ->])]];
     cbn [ucount filter is_report is_send is_new length]; rewrite ?L, ?L'.
   - split; [lia|]. split; [lia|]. split; [lia|]. split; [split; [discriminate|reflexivity]|]. split.
     + intros s0 c0 cb0 pb0 [E|[]]. inversion E; subst. split; [reflexivity|]. split; [exists a; split; reflexivity|].
@@ -287,6 +296,10 @@ Proof.
   - split; [lia|]. split; [lia|]. split; [lia|]. split; [split; [discriminate|reflexivity]|]. split.
     + intros s0 c0 cb0 pb0 [E|[E|[E|[]]]]; inversion E; subst. split; [reflexivity|]. split; [exists a; split; reflexivity|].
       split; [split; reflexivity|]. intros s1 d1 p1 pl1 [E1|[E1|[E1|[]]]]; inversion E1; subst. split; reflexivity.
+    + split; [intros _; split; [reflexivity|discriminate] | reflexivity].
+  - split; [lia|]. split; [lia|]. split; [lia|]. split; [split; [discriminate|reflexivity]|]. split.
+    + intros s0 c0 cb0 pb0 [E|[E|[]]]; inversion E; subst. split; [reflexivity|]. split; [exists a; split; reflexivity|].
+      split; [split; [discriminate | discriminate]|]. intros s1 d1 p1 pl1 [E1|[E1|[]]]; discriminate.
     + split; [intros _; split; [reflexivity|discriminate] | reflexivity].
 Qed.
 
@@ -351,4 +364,28 @@ Proof.
   destruct (layout _ _ _) as [[ss| |]|] eqn:Ly; try (cbn; discriminate).
   exfalso. apply NP; try (unfold zlen; lia); [|reflexivity].
   change max_addr_len with 19%Z. lia.
+Qed.
+
+(* a datagram valid under a configured key whose send the kernel refuses (port 0, unreachable
+   family): the association is created all the same, nothing leaves, and the failure is reported
+   on it with 0 payload bytes — so the association is subject to the ordinary expiry (C14, C16) *)
+Lemma udp_send_failure_lemma e ue st ca cip pkt ent pt payload dst port :
+  alookup N.eqb ca (u_nat st) = None ->
+  In ent (items (u_cl st)) -> unpack e (e_key ent) pkt = Some pt ->
+  (forall k' pt', unpack e k' pkt = Some pt' -> pt' = pt) ->
+  validate_packet ue pt = inl (payload, dst, port) ->
+  ue_sendable ue dst port = false ->
+  exists st' id, udp_client_step e ue st ca cip pkt =
+    (st', [UNew ca (u_next st) id; UReport (u_next st) us_write (zlen pkt) 0])
+    /\ alookup N.eqb ca (u_nat st') <> None.
+Proof.
+  intros L Hin U Huniq V Hsend. unfold udp_client_step. rewrite L.
+  assert (Hsnap : exists el, In el (snapshot cip (u_cl st)) /\ snd el = ent).
+  { pose proof (snapshot_permutation_lemma cip (u_cl st)) as P. apply Permutation.Permutation_sym in P.
+    pose proof (Permutation.Permutation_in _ P Hin) as H. apply in_map_iff in H as [el [E H]]. exists el. tauto. }
+  destruct Hsnap as [el0 [Hin0 E0]]. subst ent.
+  destruct (find_entry_udp_complete e pkt _ el0 pt Hin0 U) as (el & pt' & F). rewrite F.
+  apply find_entry_udp_sound in F as [_ U']. rewrite (Huniq _ _ U'), V, Hsend.
+  eexists; eexists. split; [reflexivity|]. cbn [u_nat].
+  rewrite (alookup_app N.eqb), L. cbn. rewrite N.eqb_refl. discriminate.
 Qed.
